@@ -793,6 +793,7 @@ struct Gen {
   bool emit_q120_op() {
     Call c;
     uint64_t x = r.below(100);
+    if (r.chance(8, 100)) return emit_coeff_pair(false);
     if (x < 25) {
       uint64_t n = 1ull << r.range(0, cfg.thorough ? 12 : 8);
       c.op = r.chance(1, 2) ? OP_Q120_NTT : OP_Q120_INTT;
@@ -933,6 +934,36 @@ struct Gen {
     Call d = c;
     d.op = c.op + 1;  // the _avx2 twin follows its _ref in the op table
     d.s[0] = new_raw(T_U64, on, false, 0);
+    d.repeat_of = (int)P.calls.size() - 1;
+    return push_call(d);
+  }
+
+  // exported coefficient kernels, ref then avx on identical operands (some outputs in place / misaligned by the slot plan)
+  bool emit_coeff_pair(bool pair) {
+    static const int refs[] = {OP_ZNX_ADD_REF, OP_ZNX_SUB_REF, OP_ZNX_NEG_REF, OP_RNX_DIV_REF};
+    Call c;
+    c.op = refs[r.below(4)];
+    if (!pair && r.chance(1, 2)) c.op++;
+    const uint64_t nn = 1ull << r.range(0, cfg.thorough ? 12 : 9);
+    c.p[0] = nn;
+    const bool rnx = c.op >= OP_RNX_DIV_REF;
+    if (rnx) {
+      static const double ms[] = {1, 2, 4, 8, 16, 64, 1024, 65536, 3, 7, 1e9, 0.5};
+      double m = ms[r.below(12)];
+      memcpy(&c.p[1], &m, 8);
+      c.s[1] = new_raw(T_F64, nn, true, (int)r.range(1, 50));
+      c.s[0] = new_raw(T_F64, nn, false, 0);
+    } else {
+      const int bits = (int)r.range(1, 61);
+      c.s[1] = new_raw(T_I64, nn, true, bits);
+      if (c.op < OP_ZNX_NEG_REF) c.s[2] = r.chance(10, 100) ? c.s[1] : new_raw(T_I64, nn, true, bits);
+      c.s[0] = new_raw(T_I64, nn, false, 0);
+    }
+    if (!push_call(c)) return false;
+    if (!pair) return true;
+    Call d = c;
+    d.op = c.op + 1;  // the _avx twin follows its _ref in the op table
+    d.s[0] = new_raw(rnx ? T_F64 : T_I64, nn, false, 0);
     d.repeat_of = (int)P.calls.size() - 1;
     return push_call(d);
   }
@@ -1172,7 +1203,7 @@ struct Gen {
     int wk = cfg.kernel_pairs ? 8 : 0;
     int tot = wm + wt + ws + wq + wl + wr + wk;
     int v = (int)(x * (uint64_t)tot / 100);
-    if (v >= tot - wk) return emit_q120_pair();
+    if (v >= tot - wk) return r.chance(35, 100) ? emit_coeff_pair(true) : emit_q120_pair();
     if (v < wm) return emit_module_op((int)r.below(P.modules.size()));
     v -= wm;
     if (v < wt) return emit_table_op(false);
